@@ -447,6 +447,30 @@ def parse_log(out):
     return [l[7:] for l in out.split(b"\n") if re.fullmatch(rb"commit [0-9a-f]{40}", l)]
 
 
+def go_time_string(secs, off):
+    """what fmt's %s prints for time.Unix(secs, 0).In(time.FixedZone(" ", off)); None outside datetime's range"""
+    import datetime
+    try:
+        t = datetime.datetime(1970, 1, 1) + datetime.timedelta(seconds=secs + off)
+    except OverflowError:
+        return None
+    if t.year < 1000 or t.year > 9999:
+        return None
+    a = abs(off) // 60
+    return ("%s %s%02d%02d  " % (t.strftime("%Y-%m-%d %H:%M:%S"), "-" if off < 0 else "+", a // 60, a % 60)).encode()
+
+
+def render_log(entries):
+    """the bytes `goit log` prints for [(hex id, name, email, secs, off, message)]: Commit.String + Println"""
+    out = []
+    for hid, name, email, secs, off, msg in entries:
+        date = go_time_string(secs, off)
+        if date is None:
+            return None
+        out.append(b"commit " + hid + b"\nAuthor: " + name + b" <" + email + b">\nDate: " + date + b"\n\n\t" + msg + b"\n\n")
+    return b"".join(out)
+
+
 def parse_ls_files(out, staged):
     res = []
     for line in out.split(b"\n"):
